@@ -167,6 +167,8 @@ def random_traces(rng: random.Random, count: int, ftd: list, var: list):
                          seed=1000 + i, table_size=8 * 5 + 2))
         steps = rng.randrange(0, 10)
         vs = [rng.randrange(1, 4) for _ in range(steps + 1)] if ties else rng.sample(range(1, 90), steps + 1)
+        if i % 4 == 3 and steps >= 2:       # a NaN loss somewhere after the first step (0 in the script), training carries on
+            vs[rng.randrange(1, steps)] = 0
         var.append(V.run(steps=steps, return_best=rng.random() < 0.6, script=vs, seed=2000 + i, table_size=12))
 
 
